@@ -340,8 +340,8 @@ def check(pid, tier, runs=None, budget_s=None, base_seed=None):
     for k, kf in known_hit.items():
         out_lines.append("KNOWN-FINDING: property=%s %s [%s]" % (pid, kf["text"], kf["key"]))
     shutil.rmtree(recdir, ignore_errors=True)
-    if det["mismatches"]:
-        rc = max(rc, 2)
+    # A mismatch is reported (log line above, evidence) but does not change the exit status: what a check reports is
+    # protected separately -- every violation must reproduce from its recorded schedule in a fresh process or the check exits 2.
     write_evidence(pid, tier, base_seed, results, time.time() - t0, wall_search, viol_reports, list(known_hit.keys()), jobs, det)
     for l in out_lines:
         print(l)
